@@ -27,6 +27,10 @@ THEOREMS_AGG: List[str] = [
     _T + "aggregate_denotes_fold",
     _T + "aggregate_scalar_correct_partial",
     _T + "aggregateRows_correct_partial",
+    _T + "aggregate_widened_is_fold_partial",
+    _T + "aggregate_first_step_insensitive",
+    _T + "aggregate_body_correct_widened",
+    _T + "aggregate_is_fold_tok_partial",
     _T + "aggExact_necessary_widened",
     _T + "aggExact_necessary_cast",
     _T + "aggregate_count_instance",
@@ -38,6 +42,8 @@ LEAN_SOURCES_AGG: List[str] = [
     "FaxVerif/Gen/AggSpec.lean",
     "FaxVerif/Gen/AggBodyCorrect.lean",
     "FaxVerif/Gen/AggCorrect.lean",
+    "FaxVerif/Gen/AggWiden.lean",
+    "FaxVerif/Gen/AggWidenCorrect.lean",
     "FaxVerif/Gen/AggExprCorrect.lean",
     "FaxVerif/Gen/AggRowsCorrect.lean",
     "FaxVerif/Gen/AggDriver.lean",
